@@ -14,6 +14,13 @@
  * case: D c1 d1 .. cD dD | NT {held nops op*}* | sched.. | flag      (op: 1 retain, 0 release)
  *       level 1 derives from parsec_object_t, level D is the object's class
  * out : depth=K | ctor: ids | ev: t:v .. dN .. F | destroys=N late=N rc=R | steps: .. | static: cN .. dN ..
+ *
+ * first-use cases: the class of the case is NOT initialised by the main thread; NT threads each
+ * PARSEC_OBJ_NEW an object of that same fresh class (racing through parsec_class_initialize: plain
+ * test, class_lock, re-test, array construction, unlock), then run their own retain/release list on
+ * their own object.  Scheduling points: lock attempt (a failed one is a stutter step), unlock, fetch-add.
+ * case: fu D c1 d1 .. cD dD | NT {nops op*}* | sched.. | 1
+ * out : fu depth=K inits=N | t0: cN .. :v .. dN .. F | t1: ... | steps: ..     (per-thread logs)
  */
 #if defined(VERIF_RACE)
 /* race-exploration build (clang -fsanitize=thread + tsanrt.c): every plain or atomic access to the
@@ -30,20 +37,28 @@ extern void race_share(const void *p, unsigned long len); extern void race_reset
 
 #define MAXEV 8192
 enum { EV_UPD, EV_CTOR, EV_DTOR, EV_FREE };
-typedef struct { int kind, a, v; } hev_t;
+typedef struct { int kind, a, v, t; } hev_t;
 static hev_t evs[MAXEV];
 static int nev, log_upd;
 static void *g_obj; static size_t g_objsize;
 static int g_destroys, g_late;
 /* arguments are plain locals of the caller: nothing shared is evaluated while logging */
-static void hlog(int kind, int a, int v) { if (nev < MAXEV) { evs[nev].kind = kind; evs[nev].a = a; evs[nev].v = v; nev++; } }
+static void hlog(int kind, int a, int v) { if (nev < MAXEV) { evs[nev].kind = kind; evs[nev].a = a; evs[nev].v = v; evs[nev].t = cos_self(); nev++; } }
+/* first-use cases: one object per thread */
+static int g_fu; static void *g_objs[COS_MAX];
+static int obj_index(const volatile void *l) {
+    for (int i = 0; i < COS_MAX; i++)
+        if (g_objs[i] && (char *)l >= (char *)g_objs[i] && (char *)l < (char *)g_objs[i] + g_objsize) return i;
+    return -1;
+}
 
 #if !defined(VERIF_RACE)
 /* the atomic update: yield (scheduling point), then the real inline fetch-add, logged */
 #undef parsec_atomic_fetch_add_int32
 static inline int32_t h_fetch_add(volatile int32_t *l, int32_t v) {
-    int on_obj = g_obj && (char *)l >= (char *)g_obj && (char *)l < (char *)g_obj + g_objsize;
-    if (on_obj && g_destroys > 0) g_late++;
+    int on_obj = g_fu ? obj_index(l) >= 0
+                      : (g_obj && (char *)l >= (char *)g_obj && (char *)l < (char *)g_obj + g_objsize);
+    if (on_obj && !g_fu && g_destroys > 0) g_late++;
     int32_t old = parsec_atomic_fetch_add_int32(l, v);
     if (on_obj && log_upd) hlog(EV_UPD, cos_self(), (int32_t)(old + v));
     return old;
@@ -54,9 +69,22 @@ static inline int32_t h_fetch_add(volatile int32_t *l, int32_t v) {
 /* free(): the object's block is quarantined (logged, released at the end of the case) */
 static void h_free(void *p) {
     if (p && p == g_obj) { g_destroys++; hlog(EV_FREE, 0, 0); return; }
+    if (p && g_fu) for (int i = 0; i < COS_MAX; i++) if (p == g_objs[i]) { hlog(EV_FREE, 0, 0); return; }
     free(p);
 }
 #define free(p) h_free(p)
+#if defined(VERIF_RACE)
+/* race build, first-use cases: every block allocated by the code under test (the constructor /
+ * destructor arrays, the objects) is shared, i.e. every access to it is a scheduling point; the
+ * fresh block reads as zeros (one legal content of malloc'ed memory; a NULL entry ends a table walk) */
+static void *h_malloc(size_t n) {
+    if (!g_fu) return malloc(n);
+    void *p = calloc(1, n ? n : 1);
+    if (p) race_share(p, n);
+    return p;
+}
+#define malloc(n) h_malloc(n)
+#endif
 
 #include "parsec/class/parsec_object.h"
 #include "parsec/class/parsec_object.c"
@@ -65,8 +93,8 @@ static void h_free(void *p) {
 /* PARSEC_OBJ_RETAIN / PARSEC_OBJ_RELEASE expanded below call this wrapper, which calls the real
  * inline parsec_obj_update and logs (thread, value it RETURNED): that value is what the release tests */
 static inline int h_update(parsec_object_t *o, int inc) {
-    int on_obj = ((void *)o == g_obj);
-    int late = on_obj && g_destroys > 0;
+    int on_obj = g_fu ? obj_index(o) >= 0 : ((void *)o == g_obj);
+    int late = on_obj && !g_fu && g_destroys > 0;
     int r = parsec_obj_update(o, inc);
     if (late) g_late++;
     if (on_obj && log_upd) hlog(EV_UPD, cos_self(), r);
@@ -104,6 +132,21 @@ static void thread_fn(void *arg) {
     }
 }
 
+/* first use: PARSEC_OBJ_NEW(kfu_t) expands to parsec_obj_new(&kfu_t_class) = parsec_obj_new(g_cls) */
+static parsec_class_t *g_cls;
+typedef k6_t kfu_t;
+#define kfu_t_class (*g_cls)
+static void fu_thread(void *arg) {
+    int t = (int)(intptr_t)arg;
+    parsec_object_t *mine = (parsec_object_t *)PARSEC_OBJ_NEW(kfu_t);
+    g_objs[t] = mine;
+    for (int i = 0; i < nops[t]; i++) {
+        parsec_object_t *o = mine;
+        if (ops[t][i]) { PARSEC_OBJ_RETAIN(o); }
+        else           { PARSEC_OBJ_RELEASE(o); }
+    }
+}
+
 static void print_events(int from, int to) {
     for (int i = from; i < to; i++) {
         switch (evs[i].kind) {
@@ -123,6 +166,7 @@ int main(int argc, char **argv) {
     static long v[COS_MAX * (MAXOPS + 2) + 8], sched[16384];
     while ((l = hc_next(f))) {
         char *p = l;
+        g_fu = !strncmp(l, "fu", 2);
         int k = hc_ints(&p, v, 2 * MAXD + 1);
         int D = k > 0 ? (int)v[0] : 0;
         if (D < 1 || D > MAXD || k < 1 + 2 * D) { printf("<bad case>\n"); continue; }
@@ -132,8 +176,8 @@ int main(int argc, char **argv) {
         int nt = k > 0 ? (int)v[0] : -1, q = 1, bad = 0; long total = 0; long held[COS_MAX];
         if (nt < 0 || nt > COS_MAX) { printf("<bad case>\n"); continue; }
         for (int t = 0; t < nt && !bad; t++) {
-            if (q + 2 > k) { bad = 1; break; }
-            held[t] = v[q++]; nops[t] = (int)v[q++]; total += held[t];
+            if (q + (g_fu ? 1 : 2) > k) { bad = 1; break; }
+            held[t] = g_fu ? 1 : v[q++]; nops[t] = (int)v[q++]; total += held[t];
             if (nops[t] < 0 || nops[t] > MAXOPS || q + nops[t] > k || held[t] < 0) { bad = 1; break; }
             for (int i = 0; i < nops[t]; i++) ops[t][i] = v[q++] ? 1 : 0;
         }
@@ -150,6 +194,36 @@ int main(int argc, char **argv) {
         parsec_class_t *cls[MAXD] = { &k1_t_class, &k2_t_class, &k3_t_class, &k4_t_class, &k5_t_class, &k6_t_class };
 
         nev = 0; log_upd = 0; g_obj = NULL; g_destroys = 0; g_late = 0;
+        memset(g_objs, 0, sizeof(g_objs));
+        if (g_fu) {
+            if (nt < 1) { printf("<bad case>\n"); continue; }
+            g_cls = cls[D - 1]; g_objsize = g_cls->cls_sizeof; log_upd = 1;
+#if defined(VERIF_RACE)
+            race_reset(); race_share(&class_lock, sizeof(class_lock));
+            for (int i = 0; i < D; i++) race_share(cls[i], sizeof(parsec_class_t));
+#endif
+            cos_reset();
+            for (int t = 0; t < nt; t++) cos_spawn(fu_thread, (void *)(intptr_t)t);
+            int dl = cos_run(sched, ns, 20000);
+            log_upd = 0;
+            printf("fu depth=%d inits=%d", g_cls->cls_depth, num_classes);
+            for (int t = 0; t < nt; t++) {
+                printf(" | t%d:", t);
+                for (int i = 0; i < nev; i++) if (evs[i].t == t) switch (evs[i].kind) {
+                    case EV_UPD:  printf(" :%d", evs[i].v); break;
+                    case EV_CTOR: printf(" c%d", evs[i].a); break;
+                    case EV_DTOR: printf(" d%d", evs[i].a); break;
+                    default:      printf(" F");
+                }
+            }
+            printf(" | steps:");
+            for (int t = 0; t < nt; t++) printf(" %d", cos_steps[t]);
+            printf("%s\n", dl ? " <deadlock>" : "");
+            for (int t = 0; t < nt; t++) { void *o = g_objs[t]; g_objs[t] = NULL; if (o) (free)(o); }
+            g_fu = 0;
+            parsec_class_finalize();
+            continue;
+        }
         parsec_object_t *obj = NULL;
         switch (D) {
         case 1: NEW_OF(k1_t); break; case 2: NEW_OF(k2_t); break; case 3: NEW_OF(k3_t); break;
